@@ -247,9 +247,18 @@ def check(prop, tier, seed):
     bad = {n: a for n, a in ax.items() if not set(a) <= C.STD_AXIOMS}
     if bad:
         raise C.InfraError(f"non-standard axioms: {bad}")
+    leanchecker = None
+    if tier == "thorough":
+        # independent re-check of the compiled theorems by the toolchain's `leanchecker`
+        import subprocess
+        r = subprocess.run(["lake", "env", "leanchecker", *mod.LEAN_MODULES], cwd=C.LEAN_DIR, capture_output=True, text=True,
+                           timeout=1800, env=C._env())
+        if r.returncode != 0:
+            raise C.InfraError("leanchecker rejected the compiled theorems:\n" + (r.stdout + r.stderr)[-3000:])
+        leanchecker = "ok: " + " ".join(mod.LEAN_MODULES)
     obligations = len(names) + len(table_info)
     discharged = len(names) + (0 if broken_obligation else len(table_info))
-    cov["lean"] = {"theorems": names, "axioms_used": sorted({a for v in ax.values() for a in v}), "tables": table_info}
+    cov["lean"] = {"leanchecker": leanchecker, "theorems": names, "axioms_used": sorted({a for v in ax.values() for a in v}), "tables": table_info}
 
     # ---- 4. correspondence streams + oracles -------------------------------------------------
     stats = {}
